@@ -161,6 +161,39 @@ fn failure_sites(sorenson: bool) -> Vec<(String, Vec<u8>)> {
     v
 }
 
+/// Thorough tier: every complete-macroblock letter of the C01 grammar (valid and invalid) as the
+/// first or second macroblock of an I and of a P picture. Whether a letter fails is not assumed:
+/// the property is conditional on Err.
+fn grammar_sites(sorenson: bool) -> Vec<(String, Vec<u8>)> {
+    use super::crash::{letters_i, letters_p, Stream};
+    let mut v = vec![];
+    let streams: Vec<Stream> = if sorenson { vec![Stream::SorV0, Stream::SorV1] } else { vec![Stream::Std] };
+    for st in streams {
+        for ptype in [0u8, 1] {
+            let letters = if ptype == 0 { letters_i(st) } else { letters_p(st) };
+            let hdr = match st {
+                Stream::SorV0 => Hdr::S(SHdr { version: 0, tr: 91, size: SSize::auto(32, 16), ptype, deblock: true, q: 31, pei: vec![] }),
+                Stream::SorV1 => Hdr::S(SHdr { version: 1, tr: 92, size: SSize::auto(32, 16), ptype, deblock: true, q: 31, pei: vec![7] }),
+                Stream::Std => {
+                    let mut h = StdHdr::custom(32, 16, ptype != 0, 93, 31);
+                    h.freeze = true;
+                    Hdr::Std(h)
+                }
+            };
+            for (name, bits) in letters.iter().skip(1) {
+                for k in 0..2usize {
+                    let mut mbs: Vec<Mb> = (0..k).map(|_| Mb::Raw(letters[0].1.clone())).collect();
+                    mbs.push(Mb::Raw(bits.clone()));
+                    let mut b = encode_bytes(&Pic { hdr: hdr.clone(), mbs });
+                    b.extend_from_slice(&[0, 0]);
+                    v.push((format!("grammar letter {name} as macroblock {k} of a {st:?} type-{ptype} picture"), b));
+                }
+            }
+        }
+    }
+    v
+}
+
 fn drain<R: Read>(rd: &mut H263Reader<R>) -> Vec<bool> {
     let mut out = vec![];
     while let Ok(b) = rd.read_bits::<u8>(1) {
@@ -226,7 +259,8 @@ fn fail_checks(rep: &Report, world: &World, nodes: &[Node], sites: &[(String, Ve
             return;
         }
         // failing twice changes nothing either
-        let o2 = decode_bytes(&mut r.dec.st, f);
+        // (the same bytes, sentinel included: whether an input fails can depend on what follows it)
+        let o2 = decode_bytes(&mut r.dec.st, &src);
         rep.add_transitions(1);
         if !o2.is_err() || state_key(&r.dec.st) != key0 {
             rep.violation(&format!("C05/second-failure-differs[{class}]"), format!("state after {labels:?}: '{name}' repeated: {}", o2.short()), replay_steps);
@@ -243,8 +277,8 @@ fn fail_checks(rep: &Report, world: &World, nodes: &[Node], sites: &[(String, Ve
                     Ok(x) => x,
                     Err(_) => continue,
                 };
-                let _ = decode_bytes(&mut a.dec.st, f);
-                a.dec.fed.push(f.clone());
+                let _ = decode_bytes(&mut a.dec.st, &src);
+                a.dec.fed.push(src.clone());
                 let ra = world.apply(&mut a, vi, "C05", &mut stats);
                 let mut h2 = node.hist.clone();
                 h2.push(vi);
@@ -412,7 +446,10 @@ pub fn run(tier: Tier) -> Report {
         // states of the reachable graph (violations of C04 itself are reported by C04, not here)
         let quiet = Report::new("C04", "refgraph", tier);
         let ex = explore(&world, &quiet, "C04", None, false);
-        let sites = failure_sites(sorenson);
+        let mut sites = failure_sites(sorenson);
+        if tier.thorough() {
+            sites.extend(grammar_sites(sorenson));
+        }
         rep.add_states(ex.nodes.len() as u64);
         fail_checks(&rep, &world, &ex.nodes, &sites, &site_failed, true);
         graphs.push(json!({"mode": if sorenson { "sorenson" } else { "standard" }, "states": ex.nodes.len(), "failure_sites": sites.len(), "operations": world.ops.len(), "fixpoint": ex.fixpoint}));
